@@ -86,6 +86,12 @@ class ClassRef:
     def __init__(self, ci):
         self.ci = ci
 
+    def __eq__(self, other):
+        return isinstance(other, ClassRef) and other.ci is self.ci
+
+    def __hash__(self):
+        return hash(id(self.ci))
+
     def __repr__(self):
         return f"<ClassRef {self.ci.qualname}>"
 
